@@ -24,9 +24,21 @@ type inst struct {
 	serial *bytes.Buffer
 }
 
-func newInst(rom string) *inst {
+func newInst(rom string) *inst { return newInstAudio(rom, false) }
+
+func newInstAudio(rom string, audio bool) *inst {
 	s := &bytes.Buffer{}
-	return &inst{gameboy.New(gameboy.Config{RomFilename: rom, DisableVideoOutput: true, DisableAudioOutput: true, SerialWriter: s}), s}
+	return &inst{gameboy.New(gameboy.Config{RomFilename: rom, DisableVideoOutput: true, DisableAudioOutput: !audio, SerialWriter: s}), s}
+}
+
+// finalDigest releases the instance's outputs and digests what its speakers received
+func finalDigest(in *inst) int {
+	spk := in.gb.VerifSpeakers()
+	in.gb.Cleanup()
+	if spk == nil {
+		return 0
+	}
+	return digest([]byte(fmt.Sprint(spk.HashL, spk.HashR, spk.Samples, spk.Cleanups)))
 }
 
 // multiScenario: solo digests of every ROM first (one instance alive at a time), then the same ROMs as simultaneous
@@ -69,24 +81,39 @@ func multiScenario(id string, roms []string, order []int, sched string, frames i
 			}
 			return
 		}
+		// "frame-audio": as "frame", every instance with its own (stand-in) speakers attached; each instance's outputs
+		// are released at the end, in creation order, and what its speakers received is part of the comparison
+		audio := sched == "frame-audio"
 		for i, r := range roms {
-			in := newInst(r)
+			in := newInstAudio(r, audio)
 			for f := 0; f < frames; f++ {
 				in.gb.VerifRunFrame(context.Background())
 				sc.Ev = append(sc.Ev, []any{"solo", i, f, gbDigest(in.gb, in.serial)})
 			}
+			if audio {
+				sc.Ev = append(sc.Ev, []any{"solo", i, frames, finalDigest(in)})
+			}
 		}
 		ins := make([]*inst, len(roms))
 		for _, i := range order {
-			ins[i] = newInst(roms[i])
+			ins[i] = newInstAudio(roms[i], audio)
 		}
-		if sched == "frame" {
+		if sched == "frame" || audio {
 			for f := 0; f < frames; f++ {
 				for _, i := range order {
 					ins[i].gb.VerifRunFrame(context.Background())
 				}
 				for i := range roms {
 					sc.Ev = append(sc.Ev, []any{"multi", i, f, gbDigest(ins[i].gb, ins[i].serial)})
+				}
+			}
+			if audio {
+				fin := make([]int, len(roms))
+				for _, i := range order {
+					fin[i] = finalDigest(ins[i])
+				}
+				for i := range roms {
+					sc.Ev = append(sc.Ev, []any{"multi", i, frames, fin[i]})
 				}
 			}
 			return
@@ -185,7 +212,7 @@ func perms(n int) [][]int {
 }
 
 func systemGenMulti(c *Ctx, w *trace.Writer, tmp string) {
-	for _, sched := range []string{"frame", "cycle", "conc"} {
+	for _, sched := range []string{"frame", "frame-audio", "cycle", "conc"} {
 		if !c.Want("multi-" + sched) {
 			continue
 		}
